@@ -4,7 +4,7 @@
     Operation [99] is the final drop of the object: its result is what the harness measures
     while dropping ([keys dropped; values dropped; double drops; live tracked objects; live
     heap blocks allocated by the object; poison damage]). *)
-From VF Require Import Base Iter Enc Lru LruStep Slru TwoQ Arc CacheStep Tiny WTiny Sampled TinyStep Sizing Heap HeapStep Fault FaultStep HeapSlruDef HeapSlruStep.
+From VF Require Import Base Iter Enc Lru LruStep Slru TwoQ Arc CacheStep Tiny WTiny Sampled TinyStep Sizing Heap HeapStep Fault FaultStep HeapSlruDef HeapSlruStep HeapTwoQDef HeapArcDef HeapWTinyDef HeapCompStep.
 Open Scope Z_scope.
 
 Inductive ustate :=
@@ -20,7 +20,10 @@ Inductive ustate :=
 | UCtor
 | UHeap (s : hstate)
 | UFault (s : fstate)
-| UHSlru (s : hsstate).
+| UHSlru (s : hsstate)
+| UHTwoQ (s : htqstate)
+| UHArc (s : hastate)
+| UHWTiny (s : hwstate).
 
 Definition uinit (kind : Z) (cfg : list Z) : option ustate :=
   match kind with
@@ -36,6 +39,9 @@ Definition uinit (kind : Z) (cfg : list Z) : option ustate :=
   | 9 => option_map UHeap (hinit cfg)
   | 10 => option_map UFault (finit cfg)
   | 11 => option_map UHSlru (hsinit cfg)
+  | 12 => option_map UHTwoQ (htqinit cfg)
+  | 13 => option_map UHArc (hainit cfg)
+  | 14 => option_map UHWTiny (hwinit cfg)
   | _ => None
   end.
 
@@ -55,6 +61,9 @@ Definition uretained (s : ustate) : nat :=
   | UHeap s => hretained s
   | UFault s => fretained s
   | UHSlru s => hsretained s
+  | UHTwoQ s => htqretained s
+  | UHArc s => haretained s
+  | UHWTiny s => hwretained s
   end.
 
 (** tracked objects that are alive but in no node (lost by a panic in user code): kind 10 only *)
@@ -99,7 +108,7 @@ Definition putres_step (op : list Z) : option (ustate * list Z * list Z) :=
 
 Definition ustep (s : ustate) (op : list Z) : option (ustate * list Z * list Z) :=
   match op with
-  | [99] => Some (UDead, match s with UHeap hs => hdrop_out hs | UFault fs => fdrop_out fs | UHSlru hs => hsdrop_out hs | _ => drop_out (uretained s) end, [0])
+  | [99] => Some (UDead, match s with UHeap hs => hdrop_out hs | UFault fs => fdrop_out fs | UHSlru hs => hsdrop_out hs | UHTwoQ hs => htqdrop_out hs | UHArc hs => hadrop_out hs | UHWTiny hs => hwdrop_out hs | _ => drop_out (uretained s) end, [0])
   | _ =>
     match s with
     | UDead => None
@@ -115,6 +124,9 @@ Definition ustep (s : ustate) (op : list Z) : option (ustate * list Z * list Z) 
     | UHeap s => lift UHeap (hstep_enc s op)
     | UFault s => lift UFault (fstep_enc s op)
     | UHSlru s => lift UHSlru (hsstep_enc s op)
+    | UHTwoQ s => lift UHTwoQ (htqstep_enc s op)
+    | UHArc s => lift UHArc (hastep_enc s op)
+    | UHWTiny s => lift UHWTiny (hwstep_enc s op)
     end
   end.
 
@@ -133,4 +145,7 @@ Definition usnap (s : ustate) : list Z :=
   | UHeap s => hsnap s
   | UFault s => fsnap s
   | UHSlru s => hssnap s
+  | UHTwoQ s => htqsnap s
+  | UHArc s => hasnap s
+  | UHWTiny s => hwsnap s
   end.
